@@ -126,6 +126,7 @@ func runC15(c *Ctx) {
 	c15AtomicOption(c)
 	c15GenFlush(c)
 	ruleOpenTruncates(c, "OPEN-TRUNCATES")
+	ruleStaleErr(c, "R-STALE-ERR", c.P.ModulePkgs())
 	// the module cache's archive object is requested atomically (shared with C09 MARKER-ATOMIC)
 	c.Rule("ATOMIC-REQUESTED", "objects whose presence means \"complete\" to a reader are written with the atomic option", 1)
 	if pkStore := c.P.Pkg("private/bufpkg/bufmodule/bufmodulestore"); pkStore != nil {
